@@ -124,6 +124,16 @@ pub fn full_oracle(cfg: &Cfg, r: &RunOut, truth: &Truth, stable: bool) -> String
         fails.push("C04:panic in the strategy loop".to_string());
         fails.push("C16:panic in the strategy loop".to_string());
     }
+    // C01: the per-hop totals in the snapshot are the sums of the published outcomes
+    if let Some(st) = &r.snapshot {
+        let rounds: Vec<crate::m_state::RoundIn> = r.rounds.iter().map(|x| crate::m_state::RoundIn { probes: x.probes.clone(), largest_ttl: x.largest_ttl, tf: x.reason == trippy_core::CompletionReason::TargetFound }).collect();
+        let st2 = st.clone();
+        let extra = std::panic::catch_unwind(std::panic::AssertUnwindSafe(|| crate::m_state::totals_oracle(&st2, &rounds, cfg.max_samples)));
+        match extra {
+            Ok(v) => fails.extend(v.into_iter().map(|m| m.replacen("C05:", "C01:totals:", 1))),
+            Err(_) => fails.push("C10:panic_querying_the_snapshot".to_string()),
+        }
+    }
     oracles::verdict(&fails)
 }
 
